@@ -202,7 +202,7 @@ def run_case(case):
             add('lens', None, None, ('plens', len(PA), len(PB), len((f // g).share), len((f % g).share), len((f + g).share), len((f * g).share)))
         elif group == 'gcd':
             add('gcd', secpoly.gcd(f, g), poly.gcd(a, b))
-            if not A and not B and (PA or PB):
+            if not A and not B:   # also for length 0: AssertionError (division by the zero polynomial)
                 return S, out      # gcdext(0, 0) with positive length never terminates: open finding secpoly_gcdext_zero_hang
             ge = secpoly.gcdext(f, g)
             ee = poly.gcdext(a, b)
